@@ -3,6 +3,7 @@ package verifharness
 import (
 	"fmt"
 	"io"
+	"net"
 	"syscall"
 
 	"github.com/Jigsaw-Code/outline-ss-server/service"
@@ -186,10 +187,35 @@ func runC13(rc *RunCtx) {
 			rc.Failf("unusable:ListenStream", "manager unusable after concurrent phase: ListenStream(%s): %v", c13Addrs[i], err)
 			continue
 		}
+		// ... and the handle obtained must work: one connection, one datagram
+		w := simnet.W()
+		ip, port := dialIP(c13Addrs[i])
+		simrt.GoNamed("usability-connector", func() {
+			if c, err := w.Connect(nil, ip, port); err == nil {
+				c.Close()
+			}
+		})
+		if c, err := ln.AcceptStream(); err != nil {
+			rc.Failf("unusable:AcceptStream", "re-acquired stream handle on %s does not accept: %v", c13Addrs[i], err)
+		} else {
+			c.Close()
+		}
 		pc, err := m.ListenPacket(c13Addrs[i])
 		if err != nil {
 			rc.Failf("unusable:ListenPacket", "manager unusable after concurrent phase: ListenPacket(%s): %v", c13Addrs[i], err)
 		} else {
+			src := net.IPv4(198, 18, 13, byte(1+i)).To4()
+			if ip.To4() == nil {
+				src = net.ParseIP(fmt.Sprintf("2001:db8:13::%x", 1+i))
+			}
+			if fs, err := w.BindUDP(&net.UDPAddr{IP: src, Port: 7300 + i}); err == nil {
+				fs.WriteToUDP([]byte("usable?"), &net.UDPAddr{IP: ip, Port: port})
+				buf := make([]byte, 64)
+				if n, _, err := pc.ReadFrom(buf); err != nil || string(buf[:n]) != "usable?" {
+					rc.Failf("unusable:ReadFrom", "re-acquired packet handle on %s does not deliver: %q, %v", c13Addrs[i], buf[:n], err)
+				}
+				fs.Close()
+			}
 			pc.Close()
 		}
 		ln.Close()
